@@ -25,6 +25,10 @@ from props import PROPS  # noqa: E402
 
 OUT = os.path.join(ROOT, "out")
 EVID = os.path.join(ROOT, "evidence")
+# dev runs (a seeded tree via VP_REPO, or a run with the Kani / replay side skipped) must never overwrite the evidence about /repo
+if os.environ.get("VP_REPO") or os.environ.get("VP_DEV_SKIP_KANI") or os.environ.get("VP_DEV_SKIP_REPLAYS"):
+    EVID = os.path.join(ROOT, "out", "dev_evidence")
+    os.makedirs(EVID, exist_ok=True)
 
 
 def load_known():
